@@ -157,6 +157,12 @@ impl Wire {
         false
     }
 
+    /// Monotone measure of transport I/O (bytes handed to the reader + write calls made), for `Sched::run_to_quiescence_while`.
+    pub fn io_progress(&self) -> u64 {
+        let w = self.lock();
+        w.bytes_delivered as u64 + w.write_calls
+    }
+
     /// NET: let a stalled writer proceed.
     pub fn unblock_write(&self) -> bool {
         let mut w = self.lock();
